@@ -13,6 +13,10 @@ import SpsdkVerif.Generated.PyFuns2
 import SpsdkVerif.Generated.EnumTables
 import SpsdkVerif.Model.Misc2
 import SpsdkVerif.Proofs.Misc2
+import SpsdkVerif.Generated.PyFuns3
+import SpsdkVerif.Generated.Misc3Tables
+import SpsdkVerif.Model.Misc3
+import SpsdkVerif.Proofs.Misc3
 
 namespace SpsdkVerif.C20
 open SpsdkVerif SpsdkVerif.Generated.PyFuns SpsdkVerif.Misc
@@ -832,5 +836,355 @@ example : patternProp "0b101".toList = "0x5".toList ∧ patternAccept "inc".toLi
           patternAccept "".toList = false := by decide
 
 end Phase2
+
+/-! # Phase 3 — the remaining public helpers (Model/Misc3.lean, helpers Proofs/Misc3.lean)
+
+`reverse_bits` on every integer, `format_value`, `value_to_bytes` on every source type, `extend_block` with an integer
+padding, `find_first`, `SpsdkSoftEnum`, `Endianness`, `change_endianness` for every width, `size_fmt`, `BcdVersion3`
+text round trip, `SecBootBlckSize.align_block_fill_zeros`, and the FILE branch of `load_hex_string`.
+`PyFuns3.*` / `Misc3Tables.*` are regenerated from the source on every run. -/
+
+section Phase3
+open SpsdkVerif.Generated.PyFuns2 SpsdkVerif.Generated.PyFuns3 SpsdkVerif.Generated.EnumTables SpsdkVerif.Generated.Misc3Tables
+
+theorem reverseBitsI_err (x n : Int) : (x < 0 ∨ n < 0) ↔ reverseBitsI x n = .error .other := by
+  unfold reverseBitsI
+  by_cases h : x < 0 ∨ n < 0 <;> simp [h]
+
+theorem reverseBitsI_invol (x n : Int) (h0 : 0 ≤ x) (hn : 0 < n) (h : x.toNat < 2 ^ n.toNat) :
+    ∃ y, reverseBitsI x n = .ok y ∧ reverseBitsI (y : Int) n = .ok x.toNat := by
+  have h1 : ¬ (x < 0 ∨ n < 0) := by omega
+  refine ⟨reverseBits x.toNat n.toNat, by simp only [reverseBitsI, h1, if_false], ?_⟩
+  have h2 : ¬ (((reverseBits x.toNat n.toNat : Nat) : Int) < 0 ∨ n < 0) := by omega
+  simp only [reverseBitsI, h2, if_false, Int.toNat_natCast]
+  rw [reverseBits_invol _ _ h (by omega)]
+
+theorem extendBlockI_spec (d : Bytes) (len pad : Int) :
+    extendBlockI d len pad =
+      if len < d.length then .error .spsdk
+      else if len = d.length then .ok d
+      else if pad < 0 ∨ pad > 255 then .error .other
+      else .ok (d ++ List.replicate (len.toNat - d.length) (UInt8.ofNat pad.toNat)) := by
+  unfold extendBlockI extendBlockNumPadding
+  by_cases h : len < d.length
+  · simp [h]
+  · by_cases h2 : len = d.length
+    · simp [h2]
+    · have h3 : ¬ (len - (d.length : Int) = 0) := by omega
+      simp only [h, h2, h3, if_false, decide_false, Bool.false_eq_true]
+      by_cases h4 : pad < 0 ∨ pad > 255
+      · simp [h4]
+      · simp only [h4, if_false]
+        congr 3
+        omega
+
+theorem extendBlockI_byte (d : Bytes) (len : Int) (p : UInt8) :
+    extendBlockI d len (p.toNat : Int) = extendBlock d len p := by
+  rw [extendBlockI_spec, extendBlock_spec]
+  have hp := p.toNat_lt
+  by_cases h : len < d.length
+  · simp [h]
+  · by_cases h2 : len = d.length
+    · subst h2; simp
+    · have h4 : ¬ ((p.toNat : Int) < 0 ∨ (p.toNat : Int) > 255) := by omega
+      simp [h, h2, h4]
+
+theorem findFirst_spec {α} (l : List α) (p : α → Bool) :
+    (∀ a, findFirst l p = some a ↔ p a = true ∧ ∃ pre post, l = pre ++ a :: post ∧ ∀ x ∈ pre, p x = false) ∧
+    (findFirst l p = none ↔ ∀ x ∈ l, p x = false) := by
+  constructor
+  · intro a
+    simp [findFirst, List.find?_eq_some_iff_append]
+  · simp [findFirst]
+
+/-! soft enum -/
+theorem softFromTag_spec (E : List EnumRow) (cls : List Char) (t : Int) :
+    (softFromTag E cls t).1 = t ∧
+    (∀ m, fromTag E t = .ok m → softFromTag E cls t = m ∧ softGetLabel E cls t = m.2.1) ∧
+    (fromTag E t = .error .spsdk → softFromTag E cls t = softUnknownRow cls t ∧
+        softGetDescription E cls t none ≠ none) := by
+  refine ⟨?_, ?_, ?_⟩
+  · unfold softFromTag
+    cases h : fromTag E t with
+    | ok m => exact ((enum_lookup_sound E m).1 t h).2
+    | error e => rfl
+  · intro m h
+    simp [softFromTag, softGetLabel, h]
+  · intro h
+    simp [softFromTag, softGetDescription, h, softUnknownRow]
+
+theorem endianness_members :
+    endiannessMembers = [("BIG".toList, "big".toList), ("LITTLE".toList, "little".toList)] := by decide
+
+theorem changeEndianness_widths (b : Bytes) :
+    (changeEndianness b = .error .spsdk ↔ b.length ≠ 1 ∧ b.length ≠ 2 ∧ b.length % 4 ≠ 0) ∧
+    (∀ c, changeEndianness b = .ok c → c.length = b.length) ∧
+    (b.length ≤ 4 → b.length ≠ 3 → changeEndianness b = .ok b.reverse ∧ leDec b.reverse = beDec b) := by
+  refine ⟨?_, ?_, ?_⟩
+  · unfold changeEndianness reverseBytesInLongs
+    by_cases h1 : b.length = 1
+    · simp [h1]
+    by_cases h2 : b.length = 2
+    · simp [h2]
+    by_cases h3 : b.length = 3
+    · simp [h3]
+    by_cases h4 : b.length % 4 = 0
+    · simp [h1, h2, h3, h4]
+    · simp [h1, h2, h3, h4]
+  · intro c hc
+    by_cases h : b.length = 1 ∨ b.length = 2 ∨ b.length % 4 = 0
+    · obtain ⟨c', e1, e2⟩ := changeEndianness_invol b h
+      rw [e1] at hc; cases hc
+      by_cases h1 : b.length = 1
+      · simp [changeEndianness, h1] at e1; rw [← e1]
+      by_cases h2 : b.length = 2
+      · simp [changeEndianness, h2] at e1; rw [← e1]; simp
+      have h4 : b.length % 4 = 0 := by omega
+      have h3 : b.length ≠ 3 := by omega
+      simp [changeEndianness, h1, h2, h3, reverseBytesInLongs, h4] at e1
+      rw [← e1]; exact (revLongs_spec b h4).1
+    · have : changeEndianness b = .error .spsdk := by
+        unfold changeEndianness reverseBytesInLongs
+        have h1 : b.length ≠ 1 := by omega
+        have h2 : b.length ≠ 2 := by omega
+        have h4 : b.length % 4 ≠ 0 := by omega
+        by_cases h3 : b.length = 3 <;> simp [h1, h2, h3, h4]
+      rw [this] at hc; cases hc
+  · intro h4 h3
+    refine ⟨?_, by simp [leDec]⟩
+    match b, h4, h3 with
+    | [], _, _ => simp [changeEndianness, reverseBytesInLongs, chunk4]
+    | [a], _, _ => simp [changeEndianness]
+    | [a, b'], _, _ => simp [changeEndianness]
+    | [a, b', c], _, h3 => simp at h3
+    | [a, b', c, d], _, _ => simp [changeEndianness, reverseBytesInLongs, chunk4]
+    | _ :: _ :: _ :: _ :: _ :: _, h4, _ => simp at h4
+
+theorem sbFillZeros_spec (d : Bytes) :
+    ∃ r, sbAlignBlockFillZeros d = .ok r ∧ d <+: r ∧ sbIsAligned r.length = .ok true ∧
+      sbToNumBlocks r.length = .ok ((r.length : Int) / 16) ∧ sbAlign d.length = .ok (r.length : Int) ∧
+      ∀ x ∈ r.drop d.length, x = 0 := by
+  obtain ⟨r, hr, hp, hm, hle, hlt, hz⟩ := alignBlock_spec d 16 0 (by omega)
+  refine ⟨r, hr, hp, ?_, ?_, ?_, hz⟩
+  · have := sbToNumBlocks_spec (r.length : Int)
+    simp only [sbIsAligned, pyMod]
+    rw [Int.fmod_eq_emod_of_nonneg _ (by omega)]
+    simp [hm]
+  · rw [sbToNumBlocks_spec]; simp [hm]
+  · obtain ⟨r', hr', hd, h1, h2⟩ := sbAlign_spec (d.length : Int) (by omega)
+    rw [hr']
+    congr 1
+    obtain ⟨k, hk⟩ := hd
+    have : (r.length : Int) = 16 * ((r.length : Int) / 16) := by omega
+    omega
+
+theorem formatValuePadding_spec (size : Int) :
+    formatValuePadding size = .ok (if size % 8 ≠ 0 then size else size / 8 * 2) := by
+  have e1 : pyMod size 8 = size % 8 := by
+    simp only [pyMod]; exact Int.fmod_eq_emod_of_nonneg _ (by omega)
+  have e2 : pyFloorDiv size 8 = size / 8 := by
+    simp only [pyFloorDiv]; exact Int.fdiv_eq_ediv_of_nonneg _ (by omega)
+  simp only [formatValuePadding, e1, e2]
+  by_cases h : size % 8 = 0 <;> simp [h]
+
+theorem formatValue_err (value size : Int) (d : List Char) (p : Bool) :
+    size < 0 ↔ formatValue value size d p = .error .other := by
+  unfold formatValue
+  rw [formatValuePadding_spec]
+  by_cases h8 : size % 8 = 0
+  · simp only [h8, ne_eq, not_true_eq_false, if_false]
+    by_cases h : size < 0
+    · have : size / 8 * 2 < 0 := by omega
+      simp [h, this]
+    · have : ¬ size / 8 * 2 < 0 := by omega
+      simp [h, this]
+  · simp only [h8, ne_eq, not_false_eq_true, if_true]
+    by_cases h : size < 0 <;> simp [h]
+
+theorem guards3_spec :
+    (∀ n : Nat, bcdNumFromStrGuard n = if n ≤ 4 then .ok true else .error .spsdk) ∧
+    (∀ v : Int, unpackTimestampGuard v = if 0 ≤ v ∧ v ≤ 0xFFFFFFFFFFFFFFFF then .ok true else .error .spsdk) := by
+  constructor
+  · intro n
+    unfold bcdNumFromStrGuard
+    by_cases h : n ≤ 4
+    · have h1 : ¬ ((n : Int) < 0) := by omega
+      have h2 : ¬ ((n : Int) > 4) := by omega
+      simp [h, h1, h2]
+    · have h2 : (n : Int) > 4 := by omega
+      simp [h, h2]
+  · intro v
+    unfold unpackTimestampGuard
+    by_cases h : 0 ≤ v ∧ v ≤ 0xFFFFFFFFFFFFFFFF
+    · have h1 : ¬ (v < 0) := by omega
+      have h2 : ¬ (v > 18446744073709551615) := by omega
+      simp [h, h1, h2]
+    · by_cases h1 : v < 0
+      · simp [h, h1]
+      · have h2 : v > 18446744073709551615 := by omega
+        simp [h, h2]
+
+
+/-! ## `value_to_bytes` on every source type -/
+
+/-- bytes come back unchanged whatever `byte_cnt` says; a string is converted exactly like the number it denotes
+    (`value_to_bytes(s) = value_to_bytes(value_to_int(s))`) and refused with an SPSDK error when it is no number -/
+theorem valueToBytesAny_spec (a2n le : Bool) (bc : Option Int) :
+    (∀ b, valueToBytesAny (.bytes b) a2n bc le = .ok b) ∧
+    (∀ s v, valueToInt s = some v → valueToBytesAny (.str s) a2n bc le = valueToBytesAny (.int v) a2n bc le) ∧
+    (∀ s, valueToInt s = none → valueToBytesAny (.str s) a2n bc le = .error .spsdk) ∧
+    (∀ v : Nat, bc.getD 0 = 0 → valueToBytesAny (.int v) a2n bc le = valueToBytes v a2n 0 le) := by
+  refine ⟨fun _ => rfl, ?_, ?_, ?_⟩
+  · intro s v h
+    have : ¬ ((v : Int) < 0) := by omega
+    simp [valueToBytesAny, h, this]
+  · intro s h; simp [valueToBytesAny, h]
+  · intro v h
+    have : ¬ ((v : Int) < 0) := by omega
+    simp [valueToBytesAny, h, this]
+
+/-! ## `size_fmt` (exact arithmetic) -/
+
+/-- the printed mantissa is the nearest tenth (ties to even) of the exact quotient -/
+theorem sizeFmt_rounding (a d : Nat) (hd : 0 < d) :
+    2 * (roundHalfEven a d * d) ≤ 2 * a + d ∧ 2 * a ≤ 2 * (roundHalfEven a d * d) + d :=
+  roundHalfEven_spec a d hd
+
+/-- the unit is the largest one not above the value — as long as the loop does not run off the end of the unit list.
+    FULL statement (false on the current code, known finding C20-size-fmt-last-unit): the upper bound `n < base^(r+1)`
+    for every `n`; it fails from `base^6` on, where `r = 6` divisions are made but the label stays at the 6th unit (`P`). -/
+theorem sizeFmt_unit_partial (base n : Nat) (suffix : List Char) :
+    let r := (sizeFmtLoop base n (sizeFmtUnits suffix) 0 ['B']).1
+    (r = 0 ∨ base ^ r ≤ n) ∧ (r < (sizeFmtUnits suffix).length → n < base ^ (r + 1)) ∧ r ≤ (sizeFmtUnits suffix).length := by
+  obtain ⟨a, b, _, d⟩ := sizeFmtLoop_spec base n (sizeFmtUnits suffix) 0 ['B'] (Or.inl rfl)
+  exact ⟨a, fun h => b (by omega), by omega⟩
+
+example : sizeFmtBases = [(1000, "B".toList), (1024, "iB".toList)] ∧ sizeFmtPrefixes = "kMGTP".toList := by decide
+example : sizeFmt 0 true = "0 B".toList ∧ sizeFmt 1023 true = "1023 B".toList ∧ sizeFmt (-2000) true = "-2000 B".toList ∧
+          sizeFmt 1024 true = "1.0 kiB".toList ∧ sizeFmt 1536 true = "1.5 kiB".toList ∧ sizeFmt 1076 true = "1.1 kiB".toList ∧
+          sizeFmt 1050 false = "1.0 kB".toList ∧ sizeFmt 1150 false = "1.2 kB".toList ∧      -- ties go to the even tenth
+          sizeFmt (1024 * 1024 - 1) true = "1024.0 kiB".toList := by decide
+/-- the defect: one exbibyte prints like one pebibyte -/
+example : sizeFmt (1024 ^ 6) true = "1.0 PiB".toList ∧ sizeFmt (1024 ^ 5) true = "1.0 PiB".toList := by decide
+
+/-! ## `BcdVersion3`: text form round trip -/
+
+/-- `from_str(str(v)) = v` for every version the constructor accepts -/
+theorem bcd_str_roundtrip (a b c : Nat) (ha : bcdDigitOk a = true) (hb : bcdDigitOk b = true) (hc : bcdDigitOk c = true) :
+    bcdFromStr (bcdStr (a, b, c)) = .ok (a, b, c) := by
+  have nd : ∀ n, bcdDigitOk n = true → '.' ∉ bcdToDigits n := by
+    intro n hn hm
+    exact (dec_facts _ ((bcdToDigits_facts n hn).2.2.1 _ hm)).2.2.2.2.2.2.2.2 rfl
+  have e : bcdStr (a, b, c) = bcdToDigits a ++ '.' :: (bcdToDigits b ++ '.' :: bcdToDigits c) := by simp [bcdStr]
+  simp only [bcdFromStr]
+  rw [e, splitOn_append '.' _ _ (nd a ha), splitOn_append '.' _ _ (nd b hb), splitOn_nosep '.' _ (nd c hc)]
+  simp only [bcdNumFromStr_digits a ha, bcdNumFromStr_digits b hb, bcdNumFromStr_digits c hc]
+
+/-- whatever text `from_str` accepts, the printed form of the result parses back to the same version
+    (the printed form is canonical even where the accepted text was not — see the finding below) -/
+theorem bcd_canonical (t : List Char) (v : Nat × Nat × Nat) (h : bcdFromStr t = .ok v) :
+    bcdFromStr (bcdStr v) = .ok v := by
+  unfold bcdFromStr at h
+  split at h
+  · rename_i a b c _
+    cases ha : bcdNumFromStr a with
+    | error e => rw [ha] at h; cases h
+    | ok x =>
+      cases hb : bcdNumFromStr b with
+      | error e => rw [ha, hb] at h; cases h
+      | ok y =>
+        cases hc : bcdNumFromStr c with
+        | error e => rw [ha, hb, hc] at h; cases h
+        | ok z =>
+          rw [ha, hb, hc] at h
+          cases h
+          exact bcd_str_roundtrip x y z (bcdNumFromStr_ok a x ha) (bcdNumFromStr_ok b y hb) (bcdNumFromStr_ok c z hc)
+  · cases h
+
+/-- the generated constant `BcdVersion3.DEFAULT` is a valid version -/
+theorem bcd_default_valid : bcdFromStr bcdDefault = .ok (0x999, 0x999, 0x999) := by decide
+
+/-- KNOWN FINDING C20-bcd-num-from-str-unvalidated (current behaviour, modelled as it is): each component goes straight
+    to `int(text, 16)`; the generated length guard `len(text) < 0 or len(text) > 4` never fires from below, so signs,
+    `0x`, underscores and blanks are accepted and an empty / malformed component is a `ValueError`, not an SPSDK error -/
+example : bcdFromStr "0x1.+2. 3".toList = .ok (1, 2, 3) ∧ bcdFromStr "1_2.-0.0X_9".toList = .ok (0x12, 0, 9) ∧
+          bcdFromStr ".0.0".toList = .error .other ∧ bcdFromStr "_1.0.0".toList = .error .other ∧
+          bcdFromStr "a.0.0".toList = .error .spsdk ∧ bcdFromStr "12345.0.0".toList = .error .spsdk ∧
+          bcdFromStr "1.2".toList = .error .spsdk ∧ bcdFromStr "9999.0.10".toList = .ok (0x9999, 0, 0x10) := by decide
+example : bcdDigitOk 0x9999 = true ∧ bcdDigitOk 0x12 = true ∧ bcdStr (0x12, 0, 0x9999) = "12.0.9999".toList := by decide
+
+/-! ## `load_hex_string`: the FILE branch -/
+
+/-- A key file is read as a NUMBER when its (ASCII) text denotes one that fits `expected_size` bytes — then the result is
+    that number big-endian on `expected_size` bytes, exactly as for a literal — and as RAW BYTES otherwise, which must then
+    be exactly `expected_size` long; anything else is refused with an SPSDK error. -/
+theorem loadHexFile_spec (content : Bytes) (n : Int) (hn : 1 ≤ n) :
+    loadHexFile content n =
+      match (asciiText content).bind (fun t => if t.isEmpty then none else valueToInt (with0x t)) with
+      | some v => if v < 256 ^ n.toNat then .ok (some (beEnc n.toNat v))
+                  else if (content.length : Int) = n then .ok (some content) else .error .spsdk
+      | none => if (content.length : Int) = n then .ok (some content) else .error .spsdk :=
+  loadHexFile_eq content n hn
+
+/-- every accepted key file yields exactly `expected_size` bytes -/
+theorem loadHexFile_length (content : Bytes) (n : Int) (hn : 1 ≤ n) (b : Bytes) (h : loadHexFile content n = .ok (some b)) :
+    (b.length : Int) = n := by
+  rw [loadHexFile_eq content n hn] at h
+  split at h
+  · split at h
+    · cases h; rw [beEnc_length]; omega
+    · split at h
+      · cases h; assumption
+      · cases h
+  · split at h
+    · cases h; assumption
+    · cases h
+
+/-- a file that is not ASCII text (a binary key) is returned verbatim when it has `expected_size` bytes, else refused -/
+theorem loadHexFile_binary (content : Bytes) (n : Int) (hn : 1 ≤ n) (h : asciiText content = none) :
+    loadHexFile content n = if (content.length : Int) = n then .ok (some content) else .error .spsdk := by
+  rw [loadHexFile_eq content n hn, h]; rfl
+
+/-- an existing file takes precedence over reading the source as a literal; without one the literal branch is used -/
+theorem loadHexStringFS_dispatch (s : List Char) (n : Int) (hs : s ≠ []) (hn : 1 ≤ n) :
+    (∀ content, loadHexStringFS (some content) (.str s) n = loadHexFile content n) ∧
+    loadHexStringFS none (.str s) n = loadHexString (.str s) n := by
+  have he : s.isEmpty = false := by cases s <;> simp_all
+  have hn' : ¬ n < 1 := by omega
+  exact ⟨fun c => by simp [loadHexStringFS, he, hn'], rfl⟩
+
+def asciiBytes (s : String) : Bytes := s.toList.map (fun c => UInt8.ofNat c.toNat)
+
+/-- recorded behaviour of the file branch -/
+example : loadHexFile (asciiBytes "0102\n") 2 = .ok (some [1, 2]) ∧          -- hex text + newline
+          loadHexFile (asciiBytes "0x0102") 2 = .ok (some [1, 2]) ∧
+          loadHexFile (asciiBytes "  0102") 2 = .error .spsdk ∧                -- LEADING blanks: `0x` is prepended before the strip
+          loadHexFile [0xFF, 0xFE] 2 = .ok (some [0xFF, 0xFE]) ∧                                             -- binary key
+          loadHexFile [0xFF, 0xFE, 0x01] 2 = .error .spsdk ∧
+          loadHexFile (asciiBytes "12") 2 = .ok (some [0, 0x12]) ∧             -- AMBIGUITY: a 2-byte binary key b"12" reads as the number 0x12
+          loadHexFile [] 2 = .error .spsdk := by decide
+
+/-! ## non-vacuity for phase 3 -/
+
+example : reverseBitsI 2 1 = .ok 1 ∧ reverseBitsI 1 1 = .ok 1 ∧            -- x ≥ 2^n: mirrored on its own bit length, not an involution
+          reverseBitsI 6 2 = .ok 3 ∧ reverseBitsI (-1) 4 = .error .other ∧ reverseBitsI 3 4 = .ok 12 := by decide
+example : (0 : Int) ≤ 3 ∧ (0 : Int) < 4 ∧ (3 : Int).toNat < 2 ^ (4 : Int).toNat := by decide
+example : formatValue 0x12345 32 "_".toList true = .ok "0x0001_2345".toList ∧ formatValue 5 3 "_".toList true = .ok "0b101".toList ∧
+          formatValue (-5) 8 "_".toList true = .ok "-0x05".toList ∧ formatValue 5 (-8) "_".toList true = .error .other ∧
+          formatValue 0x12345 20 "-:".toList false = .ok "0001:-0010:-0011:-0100:-0101".toList := by decide
+example : extendBlockI [1, 2] 2 300 = .ok [1, 2] ∧ extendBlockI [1, 2] 3 300 = .error .other ∧ extendBlockI [1, 2] 4 7 = .ok [1, 2, 7, 7] ∧
+          extendBlockI [1, 2] 1 0 = .error .spsdk := by decide
+example : findFirst [1, 2, 3, 4] (fun x => x % 2 == 0) = some 2 ∧ findFirst ([] : List Nat) (fun _ => true) = none := by decide
+example : softFromTag enumFlagsSrkSet "FlagsSrkSet".toList 1 = (1, "nxp".toList, some "Signed by NXP keys".toList) ∧
+          softGetLabel enumFlagsSrkSet "FlagsSrkSet".toList 99 = "FlagsSrkSet:Unknown_0x63".toList ∧
+          softGetLabel enumFlagsSrkSet "FlagsSrkSet".toList (-3) = "FlagsSrkSet:Unknown_-0x3".toList ∧
+          fromTag enumFlagsSrkSet 99 = .error .spsdk ∧ enumWF enumFlagsSrkSet = true := by decide
+example : changeEndianness [1, 2, 3, 4] = .ok [4, 3, 2, 1] ∧ changeEndianness [1, 2, 3] = .error .spsdk ∧
+          changeEndianness [1, 2, 3, 4, 5, 6, 7, 8] = .ok [4, 3, 2, 1, 8, 7, 6, 5] ∧ changeEndianness [1, 2, 3, 4, 5] = .error .spsdk := by decide
+example : sbAlignBlockFillZeros [1, 2, 3] = .ok ([1, 2, 3] ++ List.replicate 13 0) ∧ sbBlockSize = 16 := by decide
+example : valueToBytesAny (.str " 1_000 ".toList) true none false = .ok [3, 0xE8] ∧ valueToBytesAny (.bytes [1, 2, 3]) true (some 1) false = .ok [1, 2, 3] ∧
+          valueToBytesAny (.int 5) true (some (-1)) false = .error .spsdk ∧ valueToBytesAny (.int 0) true (some (-1)) false = .error .other := by decide
+
+end Phase3
 
 end SpsdkVerif.C20
